@@ -668,12 +668,28 @@ theorem C11_call_binding (a b : Rat) (extra : List (String × Rat))
     (∀ c, boundBuffers bufferSig [a, b, c] extra = none) := by
   simp [boundBuffers, bindArgs, bufferSig, List.lookup, hx, hy]
 
-/-- the binding is a property of the signature table alone: any signature whose first two
-    positional parameters are `time_buffer`, `freq_buffer` with defaults 0 binds like `bufferSig`
-    (the obligation regenerated from `inspect.signature(buffer_geometry)` instantiates this) -/
-theorem C11_signature_table (sig : Sig) (h : sig = bufferSig) (pos : List Rat) (kw : List (String × Rat)) :
-    boundBuffers sig pos kw = boundBuffers bufferSig pos kw := by
-  subst h; rfl
+private theorem bindArgs_nil (sig : Sig) (kw : List (String × Rat)) :
+    bindArgs sig [] kw = some (sig.map (fun nd => (nd.1, (kw.lookup nd.1).getD nd.2))) := by
+  induction sig with
+  | nil => simp [bindArgs]
+  | cons x xs ih => obtain ⟨n, d⟩ := x; simp [bindArgs, ih]
+
+/-- the binding of the two buffers is a property of the head of the signature table alone: whatever
+    optional parameters follow `time_buffer = 0, freq_buffer = 0`, a call with at most two positional
+    values after the geometry binds the buffers as `bufferSig` does (the obligation regenerated from
+    `inspect.signature(buffer_geometry)` shows that the extracted table starts with `bufferSig`) -/
+theorem C11_signature_table (rest : Sig) (pos : List Rat) (kw : List (String × Rat)) (h : pos.length ≤ 2) :
+    boundBuffers (bufferSig ++ rest) pos kw = boundBuffers bufferSig pos kw := by
+  match pos, h with
+  | [], _ =>
+    simp [boundBuffers, bufferSig, bindArgs_nil, List.lookup]
+  | [a], _ =>
+    simp only [boundBuffers, bufferSig, List.cons_append, List.nil_append, bindArgs, bindArgs_nil]
+    cases h1 : (List.lookup "time_buffer" kw).isSome <;> simp [List.lookup]
+  | [a, b], _ =>
+    simp only [boundBuffers, bufferSig, List.cons_append, List.nil_append, bindArgs, bindArgs_nil]
+    cases h1 : (List.lookup "time_buffer" kw).isSome <;> cases h2 : (List.lookup "freq_buffer" kw).isSome <;>
+      simp [List.lookup]
 
 /-- a session is judged call by call: whatever was called before (and with whatever options), a
     call returns what the same call returns in a fresh process -/
@@ -698,5 +714,6 @@ example : runHistory (fun o _ _ _ => if o = [] then some (.point 1 1) else none)
     = [none, some (.point 1 1), some (.timeInterval 0 4)] := by decide +kernel
 example : boundBuffers bufferSig [2] [("freq_buffer", 5), ("mitre_limit", 1)] = some (2, 5) := by decide +kernel
 example : boundBuffers [("freq_buffer", 0), ("time_buffer", 0)] [2, 5] [] = some (5, 2) := by decide +kernel  -- a swapped signature binds differently
+example : boundBuffers (bufferSig ++ [("quad_segs", 8)]) [2] [("freq_buffer", 5), ("quad_segs", 3)] = some (2, 5) := by decide +kernel
 
 end SE.Proofs.C11
